@@ -1,27 +1,38 @@
 #!/bin/bash
-# Runs every quick check against every stored seeded change (applied to /repo, reverted
-# afterwards) and writes /verif/seeded/matrix.json: seed -> check -> DETECTED / MISSED / MACHINERY.
-cd /repo || exit 2
-if ! git diff --quiet; then echo "/repo dirty"; exit 2; fi
+# Every quick check against every stored seeded change, WITHOUT touching /repo: a scratch
+# worktree of /repo's HEAD gets each patch in turn, and a copy of the harness whose path
+# dependencies point at that worktree is (re)built for it. Writes /verif/seeded/matrix.json
+# (seed -> check -> DETECTED / MISSED / MACHINERY). Scratch is removed at the end.
+WT=/tmp/tcss-mx-wt
+HS=/tmp/tcss-mx-harness
+TG=/tmp/tcss-mx-target
 OUT=/verif/seeded/matrix.json
+git -C /repo worktree remove --force $WT 2>/dev/null; rm -rf $WT $HS
+git -C /repo worktree add --detach $WT HEAD >/dev/null || exit 2
+mkdir -p $HS/.cargo
+cp -r /verif/harness/src /verif/harness/Cargo.toml /verif/harness/Cargo.lock $HS/
+sed -i "s|/repo/|$WT/|g" $HS/Cargo.toml
+printf '[net]\noffline = true\n[build]\ntarget-dir = "%s"\n' $TG > $HS/.cargo/config.toml
 echo "{" > $OUT.tmp
 first=1
-for S in /verif/seeded/C*; do
+for S in ${SEEDS:-/verif/seeded/C*}; do
   id=$(basename $S)
-  git apply $S/patch.diff || { echo "cannot apply $id"; continue; }
+  ( cd $WT && git checkout -q -- . && git clean -fdq && git apply $S/patch.diff ) || { echo "cannot apply $id"; continue; }
+  ( cd $HS && cargo build --release --offline >/tmp/tcss-mx-build.log 2>&1 ) || { echo "$id: harness build failed"; tail -5 /tmp/tcss-mx-build.log; continue; }
+  ( cd $WT && CARGO_TARGET_DIR=$TG/repo-bin cargo build --release --offline -p taskchampion-sync-server --bin taskchampion-sync-server >/tmp/tcss-mx-build.log 2>&1 ) || echo "$id: server binary build failed"
   [ $first = 1 ] || echo "," >> $OUT.tmp; first=0
   echo "\"$id\": {" >> $OUT.tmp
   f2=1
-  for c in C01 C02 C03 C04 C05 C06 C07 C08 C09 C10 C11 C12 C13 C14 C15 C16 C17 C18 C19 C20; do
-    TCSS_OUT_DIR=/tmp/seedmatrix-verif /verif/check $c quick > /tmp/seedmatrix.out 2>&1; rc=$?
+  for c in ${CHECKS:-C01 C02 C03 C04 C05 C06 C07 C08 C09 C10 C11 C12 C13 C14 C15 C16 C17 C18 C19 C20}; do
+    TCSS_VERIF_DIR=/verif TCSS_OUT_DIR=/tmp/tcss-mx-out TCSS_SERVER_BIN=$TG/repo-bin/release/taskchampion-sync-server TCSS_THREADS=${TCSS_THREADS:-8} $TG/release/tcss-verif check $c quick > /tmp/tcss-mx.out 2>&1; rc=$?
     case $rc in 0) v=MISSED;; 1) v=DETECTED;; *) v=MACHINERY;; esac
     [ $f2 = 1 ] || echo "," >> $OUT.tmp; f2=0
     echo -n "\"$c\": \"$v\"" >> $OUT.tmp
     echo "$id $c $v"
   done
   echo "}" >> $OUT.tmp
-  git checkout -q -- . ; git clean -fdq -e target
 done
 echo "}" >> $OUT.tmp
 mv $OUT.tmp $OUT
-rm -rf /tmp/seedmatrix-verif /tmp/seedmatrix.out
+git -C /repo worktree remove --force $WT; rm -rf $HS $TG /tmp/tcss-mx-out /tmp/tcss-mx.out /tmp/tcss-mx-build.log $WT
+git -C /repo worktree prune
